@@ -71,7 +71,7 @@ def setAt {α : Type} (l : List α) (i : Nat) (v : α) : List α := l.set i v
 /-- Initial state of a round: `jobOrder` is the list given to `MPIMaster` (jobs sorted by
 complexity); `fill_stack_` makes its first element the top of the job stack and rank 0 the top of
 the worker stack. -/
-def init (P : Nat) (jobOrder : List Nat) : Sys :=
+def init0 (P : Nat) (jobOrder : List Nat) : Sys :=
   { P := P,
     m := { jobs := jobOrder, idle := List.range P, wait := List.replicate P false,
            fin := List.replicate P false, dmap := [] },
@@ -170,6 +170,13 @@ def run : Sys → List (Nat × Bool) → Option Sys
   | s, (r, b) :: rest => match step s r b with
     | none => none
     | some s' => run s' rest
+
+/-- Initial state of a round as the other ranks can first observe it: rank 0 executes its first
+`order()` before its first `test()`, and nothing any other rank does before those sends can have an
+effect (their tests see nothing), so the round starts with the first batch of jobs handed out. -/
+def init (P : Nat) (jobOrder : List Nat) : Sys :=
+  let s := init0 P jobOrder
+  order { s with m := { s.m with started := true } }
 
 def allExited (s : Sys) : Bool := s.ws.all (·.exited)
 
